@@ -77,6 +77,10 @@ def f_row(fmt, ident, tag, shift=0):
         type_name, rule, mark, length = "Constant", "a", "X", ("1" if fixed else "")
     elif tag == "regex":
         type_name, rule, length = "RegEx", "(", ("1" if fixed else "")
+    elif tag == "lengthlate":
+        length = "1...3, 2...5"      # (the second part overlaps the first one)
+    elif tag == "rulelate":
+        type_name, rule, length, mark = "Integer", "0...150, none", ("3" if fixed else ""), ""
     elif tag == "example":
         type_name, rule, length, example, mark = "Integer", "0...999", ("3" if fixed else ""), "abc", ""
     elif tag == "examplelength":
